@@ -159,6 +159,20 @@ Section Run.
       | Err e => guard [q_unit a] (show_err e)
       end
     else "OOS".
+  (* what the interpreter displays for an expression statement: eval, then full_simplify
+     (the registry step may still rewrite the unit; the driver accounts for that) *)
+  Definition r_evalsimp (tol impl : Q) (e : expr) : string :=
+    guard (expr_units e)
+          (match eval QcN tbl res keys e with
+           | Ok q =>
+               if h3_ints_b tbl res keys (chunk_by_key keys (canon keys (q_unit q))) then
+                 match full_simplify QcN tbl res keys q with
+                 | Ok s => if unit_int (q_unit s) then show_qvu E (Q2Qc tol) (Q2Qc impl) s else "OOS"
+                 | Err er => show_err er
+                 end
+               else "OOS"
+           | Err er => show_err er
+           end).
   Definition r_base (tol impl : Q) (u : unit) : string :=
     guard [u] (let '(b, f) := to_base QcN tbl res u in
                (if close (Q2Qc tol) f (Q2Qc impl) then "ok" else "val=" ++ show_qc f) ++ ":" ++ show_unit E b).
